@@ -88,6 +88,8 @@ where
     }
 
     fn post_process(&mut self, residuals: &DefaultResiduals<T>, settings: &DefaultSettings<T>) {
+        #[cfg(clarabel_verif)]
+        let verif_status_in = self.status as u32;
         // if there was an error or we ran out of time
         // or iterations, check for partial convergence
 
@@ -97,6 +99,11 @@ where
         {
             self.check_convergence_almost(residuals, settings);
         }
+        #[cfg(clarabel_verif)]
+        crate::verif_hooks::trace::observe(crate::verif_hooks::trace::Event::Post {
+            status_in: verif_status_in,
+            status_out: self.status as u32,
+        });
     }
 
     fn finalize(&mut self, timers: &mut Timers) {
@@ -172,6 +179,35 @@ where
 
         // solve time so far (includes setup)
         self.solve_time = timers.total_time().as_secs_f64();
+        #[cfg(clarabel_verif)]
+        if crate::verif_hooks::trace::armed() {
+            use crate::verif_hooks::trace::{f, fv, observe, Event};
+            observe(Event::Info {
+                cost_primal: f(self.cost_primal),
+                cost_dual: f(self.cost_dual),
+                res_primal: f(self.res_primal),
+                res_dual: f(self.res_dual),
+                res_primal_inf: f(self.res_primal_inf),
+                res_dual_inf: f(self.res_dual_inf),
+                gap_abs: f(self.gap_abs),
+                gap_rel: f(self.gap_rel),
+                ktratio: f(self.ktratio),
+                prev_res_primal: f(self.prev_res_primal),
+                prev_res_dual: f(self.prev_res_dual),
+                prev_gap_abs: f(self.prev_gap_abs),
+                prev_gap_rel: f(self.prev_gap_rel),
+                solve_time: self.solve_time,
+                dot_bz: f(residuals.dot_bz),
+                dot_qx: f(residuals.dot_qx),
+            });
+            observe(Event::Vars {
+                x: fv(&variables.x),
+                s: fv(&variables.s),
+                z: fv(&variables.z),
+                tau: f(variables.τ),
+                kappa: f(variables.κ),
+            });
+        }
     }
 
     fn check_termination(
@@ -211,6 +247,15 @@ where
             }
         }
 
+        #[cfg(clarabel_verif)]
+        crate::verif_hooks::trace::observe(crate::verif_hooks::trace::Event::PreLimit {
+            status: self.status as u32,
+            iterations: self.iterations,
+            max_iter: settings.max_iter,
+            solve_time: self.solve_time,
+            time_limit: crate::verif_hooks::trace::f(settings.time_limit),
+        });
+
         // time or iteration limits
         // ----------------------
         if self.status == SolverStatus::Unsolved {
@@ -226,6 +271,8 @@ where
     }
 
     fn save_prev_iterate(&mut self, variables: &Self::V, prev_variables: &mut Self::V) {
+        #[cfg(clarabel_verif)]
+        crate::verif_hooks::trace::observe(crate::verif_hooks::trace::Event::SavePrev);
         self.prev_cost_primal = self.cost_primal;
         self.prev_cost_dual = self.cost_dual;
         self.prev_res_primal = self.res_primal;
@@ -237,6 +284,8 @@ where
     }
 
     fn reset_to_prev_iterate(&mut self, variables: &mut Self::V, prev_variables: &Self::V) {
+        #[cfg(clarabel_verif)]
+        crate::verif_hooks::trace::observe(crate::verif_hooks::trace::Event::Rollback);
         self.cost_primal = self.prev_cost_primal;
         self.cost_dual = self.prev_cost_dual;
         self.res_primal = self.prev_res_primal;
